@@ -1,6 +1,7 @@
 """C09 - all ways of running semantic actions give the same result
 (shape A)."""
 import collections
+import re
 import itertools
 
 from pgmc import spaces
@@ -382,6 +383,108 @@ def sugar_values_part(mon, judge, st):
                                  "actions": "d -> int(value)"})
 
 
+# rules carrying an action decorator in the grammar text and containing
+# groups / repetitions: the decorator names the action of THAT rule only; the
+# generated helper rules keep their documented built-in behaviour
+DECO_BODIES = [
+    '{D} S: a (b c)+;',
+    '{D} S: (a b)+ (b | a)?;',
+    '{D} S: (a | b c)* c;',
+    '{D} S: a (b (c a)?)* c;',
+    'S: A+ c; {D} A: a (b c)?;',
+    '{D} S: A* c; A: (a b) | b;',
+    '{D} S: a+[c] (b)? ;',
+    '{D} S: a (b c);',
+]
+DECOS = ["@act", "@pass_nochange", "@pass_single", "@pass_inner", "@pass_none"]
+_HELPER = re.compile(r"_(g\d+|opt|[01](_\w+)?)$")
+
+
+def deco_value(n, decorated, deco):
+    """documented value of a tree: user terminals give their text; a rule
+    written by the user gives its decorator's result or, undecorated, the
+    default; helper rules (documented names x_1, x_0, x_opt, x_1_sep, R_gN)
+    give the flat list / [] / value-or-None / the group's default"""
+    if n.is_term():
+        return n.value
+    kids = [deco_value(c, decorated, deco) for c in n]
+    name = n.symbol.name
+    m = _HELPER.search(name)
+    if name in decorated:
+        if deco == "@act":
+            return ("ACT", name, tuple(kids))
+        if deco == "@pass_nochange":
+            return kids
+        if deco == "@pass_single":
+            return kids[0]
+        if deco == "@pass_none":
+            return None
+        inner = kids[1:-1]
+        return inner[0] if len(inner) == 1 else inner
+    if m and m.group(1) == "opt":
+        return kids[0] if kids else None
+    if m and m.group(1)[0] == "1":
+        return [kids[0]] if len(kids) == 1 else list(kids[0]) + [kids[-1]]
+    if m and m.group(1)[0] == "0":
+        return kids[0] if kids else []
+    return kids[0] if len(kids) == 1 else kids
+
+
+def deco_sugar_part(mon, judge, st):
+    inputs = spaces.strings("abc", 6)
+    for body in DECO_BODIES:
+        for deco in DECOS:
+            text = body.replace("{D}", deco) + \
+                '\nterminals\na: "a";\nb: "b";\nc: "c";\n'
+            decorated = set(re.findall(r"@\w+ (\w+):", text))
+            acts = lambda: {"act": lambda ctx, nodes: (      # noqa: E731
+                "ACT", ctx.symbol.name, tuple(nodes))}
+            try:
+                p1 = build("lr", grammar_from_string(text), mon,
+                           tag=(body, deco, 1), ws="", actions=acts())
+                p2 = build("lr", grammar_from_string(text), mon,
+                           tag=(body, deco, 2), ws="", actions=acts(),
+                           build_tree=True)
+                p3 = build("glr", grammar_from_string(text), mon,
+                           tag=(body, deco, 3), ws="", actions=acts())
+            except (Exception, BudgetExceeded) as e:     # noqa: BLE001
+                judge.deviation(None, "deco-sugar", text, "",
+                                "construction failed",
+                                {"type": type(e).__name__, "m": str(e)[:100]},
+                                {"grammar": text})
+                continue
+            for s in inputs:
+                o2 = parse(p2, s, mon)
+                if o2.kind != "ok":
+                    continue
+                st["evaluations"] += 1
+                st["nontrivial"] += 1
+                st["deco_sugar_cases"] += 1
+                try:
+                    want = norm(deco_value(o2.value, decorated, deco))
+                except IndexError:
+                    continue          # pass_single on an empty alternative
+                res = {}
+                o1 = parse(p1, s, mon)
+                res["on-the-fly"] = norm(o1.value) if o1.kind == "ok" else o1.kind
+                res["call_actions(tree)"] = norm(p2.call_actions(o2.value))
+                o3 = parse(p3, s, mon)
+                if o3.kind == "ok":
+                    fv = ForestView(o3.value.result)
+                    if not fv.cyclic and fv.count() == 1:
+                        res["glr"] = norm(p3.call_actions(o3.value[0]))
+                bad = {k: str(v) for k, v in res.items() if v != want}
+                if bad:
+                    judge.deviation("ACTIONS", "deco-sugar", text, s,
+                                    "a rule's action decorator / the helper "
+                                    "rules' built-in actions do not give the "
+                                    "documented value",
+                                    {"want": str(want), "got": bad},
+                                    {"grammar": text, "parser": "lr",
+                                     "input": s, "options": {"ws": ""},
+                                     "actions": "act -> ('ACT', rule, nodes)"})
+
+
 def sugar_unit():
     """repetition sugar with the built-in actions: routes agree and the
     documented values come out"""
@@ -432,6 +535,7 @@ def sugar_unit():
                                 {"grammar": text, "parser": "lr", "input": s,
                                  "options": {"ws": ""}})
     sugar_values_part(mon, judge, st)
+    deco_sugar_part(mon, judge, st)
     r = judge.result()
     r.update(st)
     r.update(states=len(mon.states), transitions=mon.transitions,
